@@ -61,6 +61,15 @@ PACKAGES = {
         "messages/cproto",
         "servers/scenem",
     ],
+    "C18": [
+        "libs/simonwittber/go-vector",
+        "common/define",
+        "common:statewithtimeout.go",
+        "messages",
+        "messages/cproto",
+        "servers/center",
+        "servers/center/handler",
+    ],
 }
 
 GOENV = dict(os.environ, GOFLAGS="-mod=mod", GOPROXY="off", GOSUMDB="off", GOTOOLCHAIN="local",
